@@ -1,3 +1,4 @@
+#![feature(allocator_api)]
 // Contract models shared by every Verus unit (DESIGN 3.3, Appendix A).  This file is NOT extracted from /repo: it is the
 // specification side.  The StreamController contract below (SctlModel) is what the Kani K-refine harnesses check the real
 // `StreamController` against (kani/sctl.rs, same table, transcribed as executable assertions).
@@ -35,6 +36,12 @@ impl<In, Out> FnModel<In, Out> {
     pub fn call(&self, x: In) -> (r: Out)
         ensures r == fn_spec(self, x),
     { unimplemented!() }
+
+    /// FunctionWrapper::clone shares the same function
+    #[verifier::external_body]
+    pub fn clone(&self) -> (r: FnModel<In, Out>)
+        ensures forall|x: In| fn_spec(&r, x) == fn_spec(self, x),
+    { unimplemented!() }
 }
 
 
@@ -69,6 +76,15 @@ pub struct SctlModel<T> {
     pub sub: Ghost<bool>,
     pub ups: Ghost<Set<int>>,
     pub quits: Ghost<bool>,
+    /// unit-specific ghost log (e.g. the attempt numbers of retry's resubscriptions); no StreamController method touches it
+    pub aux: Ghost<Seq<int>>,
+}
+
+/// an Observable value held by an operator (only its identity matters to the contracts)
+#[derive(PartialEq, Eq, Structural)]
+pub struct ObservableModel { pub id: u64 }
+impl Clone for ObservableModel {
+    fn clone(&self) -> (r: ObservableModel) ensures r == *self { ObservableModel { id: self.id } }
 }
 
 impl<T> SctlModel<T> {
@@ -84,6 +100,7 @@ impl<T> SctlModel<T> {
         &&& !self.sub@
         &&& self.ups@ =~= Set::<int>::empty()
         &&& self.quits@ == pre.quits@
+        &&& self.aux@ == pre.aux@
     }
 
     #[verifier::external_body]
@@ -97,6 +114,7 @@ impl<T> SctlModel<T> {
         ensures
             final(self).wf(),
             final(self).quits@ == old(self).quits@,
+            final(self).aux@ == old(self).aux@,
             old(self).sub@ ==> final(self).out@ == old(self).out@.push(Ev::N(x)),
             old(self).sub@ && !old(self).quits@ ==> final(self).sub@ && final(self).ups@ == old(self).ups@,
             old(self).sub@ && final(self).sub@ ==> final(self).ups@ == old(self).ups@,
@@ -113,6 +131,7 @@ impl<T> SctlModel<T> {
             !final(self).sub@,
             final(self).ups@ =~= Set::<int>::empty(),
             final(self).quits@ == old(self).quits@,
+            final(self).aux@ == old(self).aux@,
     { unimplemented!() }
 
     #[verifier::external_body]
@@ -121,6 +140,7 @@ impl<T> SctlModel<T> {
         ensures
             final(self).wf(),
             final(self).quits@ == old(self).quits@,
+            final(self).aux@ == old(self).aux@,
             old(self).sub@ && old(self).ups@.remove(*serial as int) =~= Set::<int>::empty() ==> {
                 &&& final(self).out@ == old(self).out@.push(Ev::C)
                 &&& !final(self).sub@
@@ -144,6 +164,7 @@ impl<T> SctlModel<T> {
             !final(self).sub@,
             final(self).ups@ =~= Set::<int>::empty(),
             final(self).quits@ == old(self).quits@,
+            final(self).aux@ == old(self).aux@,
     { unimplemented!() }
 
     #[verifier::external_body]
@@ -155,6 +176,22 @@ impl<T> SctlModel<T> {
             final(self).sub@ == old(self).sub@,
             final(self).ups@ =~= old(self).ups@.remove(*serial as int),
             final(self).quits@ == old(self).quits@,
+            final(self).aux@ == old(self).aux@,
+    { unimplemented!() }
+
+    /// `E.inner_subscribe(self.new_observer(a, b, c))` inside a handler (rule R7'): a fresh upstream observer (serial not used
+    /// before) is registered and the observable E is subscribed with it.  E's identity is recorded in the ghost log `aux`.  What E
+    /// emits synchronously while being subscribed goes through the nested handlers (a unit of their own): here it can only extend
+    /// `out`, may end the subscription, and may register/remove upstreams.
+    #[verifier::external_body]
+    pub fn subscribe_inner(&mut self, o: ObservableModel)
+        requires old(self).wf(), old(self).sub@,
+        ensures
+            final(self).wf(),
+            final(self).aux@ == old(self).aux@.push(o.id as int),
+            old(self).out@.is_prefix_of(final(self).out@),
+            final(self).quits@ == old(self).quits@,
+            !old(self).sub@ ==> final(self).out@ == old(self).out@ && !final(self).sub@,
     { unimplemented!() }
 
     #[verifier::external_body]
@@ -166,6 +203,7 @@ impl<T> SctlModel<T> {
             !final(self).sub@,
             final(self).ups@ =~= Set::<int>::empty(),
             final(self).quits@ == old(self).quits@,
+            final(self).aux@ == old(self).aux@,
     { unimplemented!() }
 }
 
